@@ -1841,6 +1841,12 @@ static void scenario(const char *name, uint64_t seed)
     setenv("ABT_SCHED_EVENT_FREQ", fr, 1);
     setenv("ABT_THREAD_STACKSIZE", "65536", 1);
     CHK(ABT_init(0, NULL));
+    ABT_xstream dead = ABT_XSTREAM_NULL;
+    if (opt_long("dead", 0)) {
+        /* created first, so its rank is lower than that of every running secondary stream */
+        CHK(ABT_xstream_create(ABT_SCHED_NULL, &dead));
+        CHK(ABT_xstream_join(dead));
+    }
     setup_streams();
     if (!strcmp(name, "migrate") || !strcmp(name, "migrace") || !strcmp(name, "switch") || !strcmp(name, "xjoin") ||
         !strcmp(name, "cancelnew") || !strcmp(name, "cancelmix") || !strcmp(name, "ryt") || !strcmp(name, "replace")) {
@@ -1870,6 +1876,8 @@ static void scenario(const char *name, uint64_t seed)
         sample_blocked("afterjoin");
         for (int e = 1; e < g_nes; e++)
             CHK(ABT_xstream_free(&g_xs[e]));
+        if (dead != ABT_XSTREAM_NULL)
+            CHK(ABT_xstream_free(&dead));
         EV("\"e\":\"FinalizeCall\"");
         CHK(ABT_finalize());
         EV("\"e\":\"FinalizeRet\",\"us\":[]");
